@@ -227,8 +227,25 @@ pub fn parse_rejection(err: &ReportError) -> Rejection {
                 lines.push(n);
             }
         }
-        if let Some(p) = l.find("computed balance: ") {
-            computed = Some(l[p + "computed balance: ".len()..].trim().to_string());
+        // the computed balance as the diagnostic words it today; the wording is not part of any property, so
+        // other plausible wordings and the error value's own field are read as well
+        for phrase in ["computed balance: ", "computed balance is ", "computed balance was ", "actual balance: ", "actual balance is "] {
+            if computed.is_none() {
+                if let Some(p) = l.find(phrase) {
+                    computed = Some(l[p + phrase.len()..].trim().to_string());
+                }
+            }
+        }
+    }
+    if computed.is_none() {
+        if let ReportError::BookKeep(e, _) = err {
+            let d = format!("{:?}", e);
+            if let Some(p) = d.find("computed: \"") {
+                let rest = &d[p + "computed: \"".len()..];
+                if let Some(q) = rest.find('"') {
+                    computed = Some(rest[..q].to_string());
+                }
+            }
         }
     }
     Rejection { class, kind, origin_line, lines, computed, text }
@@ -412,7 +429,7 @@ pub fn replay_with(_idx: usize, rec: &Value, format_first: bool) -> Value {
                               "entry": entry, "lines": rej.lines, "computed": rej.computed});
             if rej.class != "bookkeep" {
                 viols.push(viol("unexpected_error_class", format!("generated text was not processed: {}", rej.text)));
-            } else if entry.is_some() && lenient.contains(&entry.unwrap()) && rej.kind == "UnbalancedPostings" {
+            } else if entry.is_some() && lenient.contains(&entry.unwrap()) && (rej.kind == "UnbalancedPostings" || (rej.computed.is_none() && !rej.kind.contains("Assert"))) {
                 // the property permits rejecting an implied exchange
             } else if ex["verdict"] == "ok" {
                 viols.push(viol("rejected_valid", format!("specification accepts this ledger, okane rejected it: {} at line {:?}", rej.kind, rej.origin_line)));
@@ -423,8 +440,10 @@ pub fn replay_with(_idx: usize, rec: &Value, format_first: bool) -> Value {
                 }
                 let kinds: Vec<&str> = ex["kinds"].as_array().unwrap().iter().map(|k| k.as_str().unwrap()).collect();
                 if kinds == ["assertion"] {
-                    if rej.kind != "BalanceAssertionFailure" {
-                        viols.push(viol("wrong_error_kind", format!("false assertion reported as {}", rej.kind)));
+                    // (the name of the error variant is not part of the property: an error that points at the posting and
+                    //  reports the computed balance is an assertion failure whatever it is called)
+                    if rej.kind != "BalanceAssertionFailure" && rej.computed.is_none() {
+                        viols.push(viol("wrong_error_kind", format!("false assertion reported as {} without the computed balance", rej.kind)));
                     } else {
                         let post = ex["post"].as_u64().unwrap() as usize;
                         let pl = &r.post_lines[want_entry - 1];
